@@ -1,6 +1,7 @@
 import OdlModel.Common
 import OdlModel.Model.CRat
 import OdlModel.Model.Interp
+import OdlModel.Gen.InterpEdges
 open OdlModel OdlModel.Interp
 
 /-- real weights acting on (complex) values -/
@@ -61,6 +62,27 @@ def doInterp (l : Line) : Option String := do
     if r.any (· = "err:index") then some "err:index"
     else some s!"ok r={showList id r}"
   | "peraxis" =>
+    -- `per_axis_interpolator` / `linear_interpolator`: the model's own dispatch decides
+    -- between the index rule and the weighted corner loop
+    let vt := (l.get? "vt").getD "num"
+    if vt == "tok" then
+      let toks := ((← l.get? "v").splitOn ",").toArray
+      if toks.size ≠ size then none
+      -- weighted sums of non-numeric values raise in the code (UFuncTypeError)
+      if !allNearest axes then return "err:type"
+      let v : List Nat → String := fun idx =>
+        match flatIndex dims idx with
+        | some k => toks.getD k "err:index"
+        | none => "err:index"
+      let r ← match conv with
+        | "point" => if x.all (·.length = 1) then some [nearestInterp axes v (x.map (·.headD 0))] else none
+        | "array" =>
+            if x.all (·.length = (x.headD []).length) then some (nearestArray axes v x) else none
+        | "mesh" => some (nearestMesh axes v x)
+        | _ => none
+      if r.any (· = "err:index") then some "err:index"
+      else some s!"ok r={showList id r}"
+    else
     let vals := (← l.crats? "v").toArray
     if vals.size ≠ size then none
     -- an out-of-range index is made visible through a flag value nobody sends
@@ -70,10 +92,13 @@ def doInterp (l : Line) : Option String := do
       | some k => vals.getD k bad
       | none => bad
     let r ← match conv with
-      | "point" => if x.all (·.length = 1) then some [perAxisInterp axes v (x.map (·.headD 0))] else none
+      | "point" =>
+          if x.all (·.length = 1) then some [perAxisInterpolator axes v (x.map (·.headD 0))] else none
       | "array" =>
-          if x.all (·.length = (x.headD []).length) then some (perAxisArray axes v x) else none
-      | "mesh" => some (perAxisMesh axes v x)
+          if x.all (·.length = (x.headD []).length) then
+            some (if allNearest axes then nearestArray axes v x else perAxisArray axes v x)
+          else none
+      | "mesh" => some (if allNearest axes then nearestMesh axes v x else perAxisMesh axes v x)
       | _ => none
     some s!"ok r={showCList r}"
   | _ => none
@@ -89,13 +114,18 @@ def parseVKind : String → Option VKind
   | "object" => some .object
   | _ => none
 
-/-- `cast vk=<class>` answers `ok safe=0|1 cast=0|1 outcome=ok|err:type`. -/
+/-- `cast vk=<class>` answers
+`ok safe=0|1 samekind=0|1 numeric=0|1 lossless=0|1 cast=0|1 outcome=ok|err:type`
+(`cast`/`outcome` with the guard and the casting rule EXTRACTED from the source). -/
 def doCast (l : Line) : Option String := do
   let vk ← (← l.get? "vk") |> parseVKind
-  let o := match findIndicesOutcome vk with
+  let g := OdlModel.Gen.Interp.castGuardNumeric
+  let r := OdlModel.Gen.Interp.castingRule
+  let o := match findIndicesOutcome g r vk with
     | .ok => "ok"
     | .typeError => "err:type"
-  some s!"ok safe={if castSafe vk then 1 else 0} cast={if pointsTakeValueDtype vk then 1 else 0} outcome={o}"
+  let b (x : Bool) := if x then 1 else 0
+  some s!"ok safe={b (castSafe vk)} samekind={b (castSameKind vk)} numeric={b (isNumeric vk)} lossless={b (castLossless vk)} cast={b (pointsTakeValueDtype g r vk)} outcome={o}"
 
 /-- `dispatch hasout=0|1 optional=0|1 out=0|1` answers `ok kind=… user_out=0|1`. -/
 def doDispatch (l : Line) : Option String := do
